@@ -37,17 +37,19 @@ type vfNet struct {
 func vfNewNet() *vfNet { return &vfNet{socks: map[string]*vfSock{}, Delay: 5 * time.Millisecond} }
 
 type vfSock struct {
-	n        *vfNet
-	addr     net.Addr
-	mu       vrt.Mutex
-	cond     *vrt.Cond
-	q        []vfDgram
-	closed   bool
-	readErr  error // injected: the next ReadFrom fails with it
-	writeErr error // injected: WriteTo fails with it
-	nread    int
-	nwritten int
-	slowTo   map[string]time.Duration // WriteTo towards these addresses takes this long (a slow path to one peer)
+	n         *vfNet
+	addr      net.Addr
+	mu        vrt.Mutex
+	cond      *vrt.Cond
+	q         []vfDgram
+	closed    bool
+	readErr   error // injected: the next ReadFrom fails with it
+	writeErr  error // injected: WriteTo fails with it
+	failAt    int   // > 0: the failAt-th WriteTo from now fails ONCE with failAtErr (a transient error at one position of a batch)
+	failAtErr error
+	nread     int
+	nwritten  int
+	slowTo    map[string]time.Duration // WriteTo towards these addresses takes this long (a slow path to one peer)
 }
 
 var errVfClosed = errors.New("use of closed network connection")
@@ -116,6 +118,14 @@ func (s *vfSock) WriteTo(p []byte, addr net.Addr) (int, error) {
 		s.mu.Unlock()
 		return 0, err
 	}
+	if s.failAt > 0 {
+		s.failAt--
+		if s.failAt == 0 {
+			err := s.failAtErr
+			s.mu.Unlock()
+			return 0, err
+		}
+	}
 	s.nwritten++
 	s.mu.Unlock()
 	n := s.n
@@ -165,6 +175,13 @@ func (s *vfSock) failReads(err error) {
 func (s *vfSock) failWrites(err error) {
 	s.mu.Lock()
 	s.writeErr = err
+	s.mu.Unlock()
+}
+
+// failWriteAt makes the k-th WriteTo from now fail once; the writes before and after it succeed.
+func (s *vfSock) failWriteAt(k int, err error) {
+	s.mu.Lock()
+	s.failAt, s.failAtErr = k, err
 	s.mu.Unlock()
 }
 
